@@ -28,7 +28,8 @@ import json
 import os
 
 import linetrace
-from vlib import Infra, build_drivers, read_ndjson, run_driver, tlc, write_evidence
+from vlib import (Infra, build_drivers, read_ndjson, run_driver, tlc, tlc_simulate,
+                  write_evidence)
 
 MC = """SPECIFICATION %s
 CONSTANTS
@@ -99,6 +100,16 @@ def model_check(ctx):
             raise Infra("LNC.tla (%s) violates %s:\n%s" % (name, r["violated"], r["out"][-1500:]))
         states += r["distinct"]
         trans += r["generated"]
+    # beyond exhaustive reach: both directions with handshake acts, a larger
+    # window, more writes and faults - random behaviours, every invariant and
+    # the channel refinement evaluated along each
+    sim = tlc_simulate(ctx, "MC_LNC",
+                       MC % ("Spec", "BothDirs", "OneHs", 4, 3, 2, 3, 4, "none", INV),
+                       "sim_lnc", 250 if quick else 6000, depth=200)
+    if not sim["ok"]:
+        raise Infra("LNC.tla violates %s in simulation:\n%s" % (sim["violated"], sim["out"][-1500:]))
+    ctx.cov["simulated_behaviours"] = sim["traces"]
+    ctx.cov["simulated_states_checked"] = sim["states"]
     for part in ("hdr", "body"):
         m = tlc(ctx, "MC_LNC", MC % ("Spec", "OneDir", "NoHs", 3, 2, 1, 1, 0, part, INV),
                 "mc_lnc_leak_" + part, timeout=600)
